@@ -17,6 +17,8 @@ def run(facts, tier):
         ("emptiness predicate support", lambda fa: predicates.obligations(fa, ['density_sketch']), 1, "the emptiness predicate still consults every field it depended on in the reviewed tree (spec/predicates.json)"),
         ("tautologies", lambda fa: generic_lints.tautologies(fa, ('density/',)), 2, "no comparison / assignment / min-max with two identical operands, no if-else with identical arms"),
         ("duplicate operands", lambda fa: generic_lints.duplicate_conjuncts(fa, ('density/',)), 2, "no logical chain tests the same operand twice (copy-paste of the wrong peer)"),
+        ("state-writing shortcuts", lambda fa: generic_lints.state_writing_shortcuts(fa, ['density_sketch']), 1, "no merge / update branch writes fields and returns early past the steps all other paths run (compaction loop, totals, cached counts); one reviewed exception"),
+        ("post-increment", lambda fa: generic_lints.post_increment_semantics(fa, ('density/',)), 1, "it++ copies *this, advances once and returns the copy by value"),
         ("structural triggers", lambda fa: triggers.obligations(fa, ['density_sketch']), 3, "the comparisons that decide when to resize / rebuild / compact / purge / promote keep their reviewed boundary (operator and constants)"),
     ):
         o = f(facts)
